@@ -105,7 +105,11 @@ def truth_table(model):
     for p in model.grid():
         f = model.feasible(p)
         if f is None: continue
-        ov = model.objval(p) if (f and model.objs) else None
+        try:
+            ov = model.objval(p) if model.objs else None
+        except (nlmodel.EvalUndefined, ZeroDivisionError, OverflowError, ValueError):
+            continue                      # objective undefined at p: point outside the model's domain
+        if not f: ov = None
         recs.append('%s|%d|%s' % (','.join(repr(float(x)) for x in p), 1 if f else 0, repr(ov) if ov is not None else '-'))
     return ';'.join(recs)
 
@@ -129,6 +133,8 @@ def judge(model, r, want_points=None):
     st = r.get('status')
     if st == 'crash':
         return {'verdict': 'crash', 'detail': r.get('stderr', '')[-800:], 'rc': r.get('rc')}
+    if st == 'readerror':
+        return {'verdict': 'invalid-nl', 'detail': r.get('msg')}
     if st != 'ok':
         if not r.get('msg'):
             return {'verdict': 'violation', 'kind': 'refusal-without-diagnostic', 'detail': r}
